@@ -276,7 +276,7 @@ def generate(seed, run, tier):
                         events.append({"op": "iter_cancel", "it": it, "how": frng.choice(["close", "throw"]), "c": "F"})
                         del live[it]
             if "add_raises" in enabled and frng.random() < fault_rate:
-                events.append({"op": "add_nonstring", "what": frng.choice(NONSTRING), "c": "W%d" % idx, "t": idx % n_tries})
+                events.append({"op": "add_nonstring", "what": frng.choice(NONSTRING), "retry": frng.choice([0, 0, 1, 2]), "c": "W%d" % idx, "t": idx % n_tries})
             events.append(ev)
         elif kind == "R":
             op = weighted_choice(wrng, [("match", 6), ("len", 1), ("match_hostless", 1)])
@@ -520,20 +520,27 @@ class Run(object):
             self.sweep(t, "add")
         elif op == "add_nonstring":
             what = ev["what"]
-            arg = {"none": None, "int": 123, "list": ["a", "b"], "bytes": b"a.b"}[what]
-            raised = None
-            self.mutation_begins(t)
-            try:
-                self.tries[t].add(arg)
-            except Exception as exc:  # noqa: any exception type is acceptable
-                raised = type(exc).__name__
-            stats.event("%s|add_nonstring|%s|%s" % (ev.get("c"), what, raised))
-            if raised is None:
-                # accepted: the property says nothing about such input; stop
-                # judging this trie rather than guess what it now contains
-                stats.probe("add_nonstring_accepted")
-                raise StopRun()
-            stats.fault("add_raises")
+            # a failed add adds nothing: live iterators stay judged; the caller
+            # may retry the very same call at once
+            for attempt in range(1 + ev.get("retry", 0)):
+                arg = {"none": None, "int": 123, "list": ["a", "b"], "bytes": b"a.b"}[what]
+                raised = None
+                try:
+                    self.tries[t].add(arg)
+                except Exception as exc:  # noqa: any exception type is acceptable
+                    raised = type(exc).__name__
+                stats.event("%s|add_nonstring|%s|%s|attempt %d" % (ev.get("c"), what, raised, attempt))
+                if raised is None and attempt == 0:
+                    # accepted: the property says nothing about such input; stop
+                    # judging this trie rather than guess what it now contains
+                    stats.probe("add_nonstring_accepted")
+                    raise StopRun()
+                if raised is None:
+                    # rejected a moment ago, accepted now, same argument
+                    self.fail("failed_add_repeats", op, "returned", "the exception of the first attempt", {"what": what, "attempt": attempt})
+                stats.fault("add_raises")
+                if attempt:
+                    stats.probe("failed_call_retried")
             self.sweep(t, "add_nonstring")
         elif op == "match":
             self.check_match(t, ev["host"], ev.get("hows", ["plain"]), ev["form"], op)
@@ -740,6 +747,7 @@ PROBES = [
     "iterators_interleaved",
     "iterator_judged",
     "iter_cancelled",
+    "failed_call_retried",
 ]
 RULE = (
     "one case = one seeded history of HostnameTrieSet.add calls by 1-4 writer clients (family 'random'), or one add "
